@@ -30,7 +30,7 @@ impl ServerCertVerifier for AcceptAny {
     }
 }
 
-pub fn client_config(tls13: bool, client_cert: bool) -> Arc<ClientConfig> {
+pub fn client_config(tls13: bool, client_cert: bool, alpn_pad: usize) -> Arc<ClientConfig> {
     let provider = Arc::new(rustls::crypto::ring::default_provider());
     let versions: &[&rustls::SupportedProtocolVersion] = if tls13 { &[&rustls::version::TLS13] } else { &[&rustls::version::TLS12] };
     let b = ClientConfig::builder_with_provider(provider.clone())
@@ -39,11 +39,23 @@ pub fn client_config(tls13: bool, client_cert: bool) -> Arc<ClientConfig> {
         .dangerous()
         .with_custom_certificate_verifier(Arc::new(AcceptAny(provider)));
     let fx = crate::tlsfix::fixtures();
-    let cfg = if client_cert {
+    let mut cfg = if client_cert {
         b.with_client_auth_cert(vec![CertificateDer::from(fx.client_cert.clone())], crate::tlsfix::key(&fx.client_key)).expect("client cert")
     } else {
         b.with_no_client_auth()
     };
+    // a long ALPN list makes the ClientHello as large as real ones get (session tickets,
+    // post-quantum key shares): `alpn_pad` bytes of protocol names
+    let mut left = alpn_pad;
+    let mut k = 0u32;
+    while left > 0 {
+        let n = left.min(200);
+        let mut name = format!("p{:04}-", k).into_bytes();
+        name.resize(n.max(name.len()).min(255), b'x');
+        left = left.saturating_sub(name.len() + 1);
+        cfg.alpn_protocols.push(name);
+        k += 1;
+    }
     Arc::new(cfg)
 }
 
